@@ -524,6 +524,7 @@ def check_gating(ctx):
         for c in A.calls_in(fn):
             if A.call_name(c) == "EprMeasureResult":
                 pp = A.kwargs_of(c).get("post_process")
+                pp = A.expand(pp, A.single_defs(fn)) if pp is not None else None  # the flag may be computed once before the results are built
                 ok = pp is not None and A.norm(pp) in ("request.expect_phi_plusandrole==EPRRole.RECV", "role==EPRRole.RECVandrequest.expect_phi_plus")
     ctx.check("C10.E", "deserialize_epr_measure_results:post_process-flag", ok, "post_process is not (request.expect_phi_plus and role == EPRRole.RECV)", "netqasm/sdk/build_epr.py")
     # the API default and hand-through of expect_phi_plus
